@@ -49,6 +49,8 @@ func (ex *Exec) binop(fr *Frame, st *State, op token.Token, x, y Val, rt types.T
 		switch {
 		case isFloatType(t):
 			e = fop("feq", BoolS, x.Term(), y.Term())
+		case (x.Loc != nil || y.Loc != nil) && len(x.L) == 1 && len(y.L) == 1:
+			e = Eq(x.L[0], y.L[0]) // encoded element pointers
 		case x.Loc != nil || y.Loc != nil:
 			panic(unsupported("comparison of interior pointers"))
 		default:
